@@ -374,3 +374,80 @@ def result_decl(ctx):
     else:
         ctx.inconclusive.append("vacuity: parser never completed")
     ctx.sample({"paths": E.paths})
+
+
+# ---------------------------------------------------------------------------------------
+# O2c: the prefix of a procedure statement (pure / impure / elemental / recursive / non_recursive / module and, for functions, the
+# result type) is reported as declared
+# ---------------------------------------------------------------------------------------
+PREFIXES = [("", []), ("pure", ["pure"]), ("impure", ["impure"]), ("elemental", ["elemental"]), ("impure elemental", ["impure", "elemental"]),
+            ("elemental impure", ["impure", "elemental"]), ("pure elemental", ["pure", "elemental"]), ("recursive", ["recursive"]),
+            ("non_recursive", ["non_recursive"]), ("IMPURE ELEMENTAL", ["impure", "elemental"]), ("Non_Recursive", ["non_recursive"]),
+            ("pure recursive", ["pure", "recursive"])]
+RTYPES = [("", None), ("integer", "integer"), ("real(8)", "real(kind=8)"), ("type(module_data)", "type(module_data)"),
+          ("real(pure_kind)", "real(kind=pure_kind)"), ("type(recursive_list)", "type(recursive_list)"), ("character(len=8)", "character(len=8)"),
+          ("type(elemental_t)", "type(elemental_t)")]
+
+
+def _pprog(prefix, rtype, kind):
+    mk = lambda pf, rt: " ".join(x for x in (pf, rt if kind == "function" else "", kind, "work(x)") if x)
+    head = choice.apply(mk, prefix, rtype) if isinstance(prefix, CV) or isinstance(rtype, CV) else mk(prefix, rtype)
+    return ["module m", "contains", head, "real :: x", "end " + kind + " work", "end module m"]
+
+
+def _pobserve(f):
+    m = f.modules[0]
+    p = (list(m.functions) + list(m.subroutines))[0]
+    rv = getattr(p, "retvar", None)
+    return sorted(a.lower() for a in p.attribs), (rv.full_declaration if hasattr(rv, "full_declaration") else None), p.name
+
+
+def replay_prefix(w):
+    f = parserh.parse_concrete(_pprog(w["prefix"], w["rtype"], w["kind"]))
+    attribs, shown, name = _pobserve(f)
+    bad = attribs != sorted(w["attribs"]) or (w["expected_type"] is not None and (shown or "").lower() != w["expected_type"].lower()) or name != "work"
+    return bad, {"statement": _pprog(w["prefix"], w["rtype"], w["kind"])[2], "ford_prefixes": attribs, "declared_prefixes": sorted(w["attribs"]),
+                 "ford_result_type": shown, "declared_result_type": w["expected_type"]}
+
+
+def _prefix_ob(kind):
+    @obligation("C18", "O2c.procedure-prefix." + kind, engine="SX(CV)", timeout=900)
+    def ob(ctx):
+        import ford.sourceform as sf
+
+        ctx.encode_fn(sf._list_of_procedure_attributes)
+        ctx.encode_fn(sf.FortranFunction._initialize if kind == "function" else sf.FortranSubroutine._initialize)
+        ctx.bounds.update({"prefix spellings": len(PREFIXES), "result types": len(RTYPES) if kind == "function" else 0})
+
+        def h(E):
+            pf = CV.choice(E, "prefix", PREFIXES)
+            rt = CV.choice(E, "rtype", RTYPES) if kind == "function" else ("", None)
+            E.e.snapshot = lambda m: {"prefix": choice.value_in_model(m, pf)[0], "attribs": choice.value_in_model(m, pf)[1], "kind": kind,
+                                      "rtype": choice.value_in_model(m, rt)[0], "expected_type": choice.value_in_model(m, rt)[1]}
+            attribs, shown, name = parserh.parse(_pprog(pf[0], rt[0], kind), post=_pobserve)
+            E.reachable("parsed")
+            E.require(choice.apply(lambda g, w_: list(g) == sorted(w_), attribs, pf[1]), "reported prefixes differ from the declared ones")
+            if kind == "function":
+                E.require(choice.apply(lambda g, w_: w_ is None or (g or "").lower() == w_.lower(), shown, rt[1]),
+                          "the result type is not the one written in the function statement")
+            E.require(choice.apply(lambda n: n == "work", name), "procedure name mangled")
+
+        E = sym.Engine(ctx, max_paths=5000, incremental=True)
+        found = E.explore(h)
+        seen = set()
+        for (label, m, pc), snap in zip(found, E.snapshots):
+            if label in seen or not snap:
+                continue
+            seen.add(label)
+            ctx.report(label, snap, replay_prefix)
+        if E.reached.get("parsed"):
+            ctx.twins += 1
+        else:
+            ctx.inconclusive.append("vacuity: parser never completed")
+        ctx.sample({"paths": E.paths})
+
+    ob.__doc__ = f"{kind} statement with symbolic prefix keywords (and result type): FORD reports exactly the declared prefixes, the declared result type and the name"
+
+
+_prefix_ob("function")
+_prefix_ob("subroutine")
